@@ -1,12 +1,15 @@
 """C19 — Control commands round-trip their arguments and never wedge the socket."""
 import itertools
+import os
 
+import kv
 from kv import Case, xn, xb, xl, xlist, xparse, xtext
 
 ID = "C19"
 MODULE = "C19"
-IMPORTS = "Bytes Quoted QuotedProofs Ctl CtlProofs"
+IMPORTS = "Bytes Quoted QuotedProofs Ctl CtlProofs CtlHosts CtlHostsProofs"
 PROFILES = ("dev",)
+LTS = "forall (S : Type) (ps : plugins_chk S) (blocked : bytes -> S -> bool) (env_step : N -> S -> S * bool) (ack : S -> S) "
 THEOREMS = [
     ("split_encode_roundtrip",
      "forall l : list str, quoted_str_split (join_sp (map encode_quoted_str l)) = l"),
@@ -66,28 +69,120 @@ THEOREMS = [
     ("log_truncation_refuted",
      "exists (data : bytes) (line : str), utf8_decode data = Some line /\\ (length data > 64)%nat /\\ log_truncate_chk 64 data = Panic"),
     ("socket_never_wedged",
-     "forall (S : Type) (ps : plugins_chk S) (blocked : bytes -> S -> bool) (env_step : N -> S -> S * bool) "
+     "forall (S : Type) (ps : plugins_chk S) (blocked : bytes -> S -> bool) (env_step : N -> S -> S * bool) (ack : S -> S) "
      "(st : lts_state S) (evs : list event) (k : N) (req : bytes), plugins_total ps -> "
      "conn_get k (l_conns st) = Some (PComplete req) -> Forall (fun ev => event_conn ev <> Some k) evs -> "
-     "let st1 := lrun ps blocked env_step st evs in conn_get k (l_conns st1) = Some (PComplete req) /\\ "
-     "(blocked req (l_env st1) = false -> let st2 := lstep ps blocked env_step st1 (EHandle k) in "
+     "let st1 := lrun ps blocked env_step ack st evs in conn_get k (l_conns st1) = Some (PComplete req) /\\ "
+     "(blocked req (l_env st1) = false -> let st2 := lstep ps blocked env_step ack st1 (EHandle k) in "
      "(exists d, conn_get k (l_conns st2) = Some (PReplied d) /\\ status_ok d) /\\ "
      "(forall j, j <> k -> conn_get j (l_conns st2) = conn_get j (l_conns st1)))"),
     ("accept_never_blocked",
-     "forall (S : Type) (ps : plugins_chk S) (blocked : bytes -> S -> bool) (env_step : N -> S -> S * bool) "
+     "forall (S : Type) (ps : plugins_chk S) (blocked : bytes -> S -> bool) (env_step : N -> S -> S * bool) (ack : S -> S) "
      "(st : lts_state S) (k : N) (req : bytes), l_listener st = Listening -> conn_get k (l_conns st) = None -> "
-     "let st1 := lrun ps blocked env_step st [EConnect k; ESend k req; EFin k] in "
+     "let st1 := lrun ps blocked env_step ack st [EConnect k; ESend k req; EFin k] in "
      "conn_get k (l_conns st1) = Some (PComplete req) /\\ l_listener st1 = Listening /\\ l_env st1 = l_env st /\\ "
      "(forall j, j <> k -> conn_get j (l_conns st1) = conn_get j (l_conns st))"),
     ("clients_cannot_close",
-     "forall (S : Type) (ps : plugins_chk S) (blocked : bytes -> S -> bool) (env_step : N -> S -> S * bool) "
-     "(st : lts_state S) (ev : event), (forall k, ev <> EHandle k) -> (forall e, ev <> EEnv e) -> "
-     "l_listener (lstep ps blocked env_step st ev) = l_listener st /\\ l_env (lstep ps blocked env_step st ev) = l_env st"),
+     "forall (S : Type) (ps : plugins_chk S) (blocked : bytes -> S -> bool) (env_step : N -> S -> S * bool) (ack : S -> S) "
+     "(st : lts_state S) (ev : event), (forall k, ev <> EHandle k) -> event_conn ev <> None -> "
+     "l_listener (lstep ps blocked env_step ack st ev) = l_listener st /\\ l_env (lstep ps blocked env_step ack st ev) = l_env st"),
     ("rejected_requests_schedule_independent",
      "forall (S : Type) (ps : plugins_chk S) (req : bytes), (utf8_decode req = None \\/ "
      "exists line, utf8_decode req = Some line /\\ lookup_chk (request_name (quoted_str_split line)) ps = None) -> "
      "exists d, starts_with (B \"error\") d = true /\\ forall s, handle_chk ps req s = Ok ({| hr_data := d; hr_close := false |}, s)"),
     ("fixture_plugins_total", "plugins_total fx_plugins_chk"),
+    # ---- strengthening 2 ----
+    ("plugin_sees_typed_arguments",
+     "forall (S : Type) (ps : plugins S) (name : str) (p : plugin S) (a : str) (args : list str) (s : S), "
+     "lookup_plugin name ps = Some p -> all_scalar name = true -> forallb all_scalar (a :: args) = true -> "
+     "handle ps (utf8_encode (client_message name (a :: args))) s = "
+     "(let (response, s') := p (a :: args) s in let (data, prepend) := match pr_kind response with "
+     "| KError data => (data, B \"error\") | KOk data => (data, B \"ok\") end in "
+     "({| hr_data := frame prepend data; hr_close := pr_close response |}, s'))"),
+    ("clear_file_sees_typed_target",
+     "forall (dbg : str -> str) (ps : plugins (list collection)) (host path : str) (ports : list collection), "
+     "lookup_plugin (B \"clear\") ps = Some (clear_hosts_plugin dbg) -> all_scalar host = true -> all_scalar path = true -> "
+     "let res := handle ps (utf8_encode (client_message (B \"clear\") [(B \"file\" : str); host; path])) ports in "
+     "let found := existsb (fun c => fst (fst (clear_file_coll host path c))) ports in "
+     "let cleared := existsb (fun c => snd (fst (clear_file_coll host path c))) ports in "
+     "snd res = map (fun c => snd (clear_file_coll host path c)) ports /\\ hr_close (fst res) = false /\\ "
+     "starts_with (B \"ok\") (hr_data (fst res)) = found && cleared /\\ "
+     "starts_with (B \"error\") (hr_data (fst res)) = negb (found && cleared)"),
+    ("clear_file_removes_exactly",
+     "forall (host path : str) (c : collection) (name key : str), "
+     "file_cached (snd (clear_file_coll host path c)) name key = file_cached c name key && "
+     "negb (match file_target c host with Some n => beq n name && beq path key | None => false end)"),
+    ("clear_response_sees_typed_target",
+     "forall (dbg : str -> str) (ps : plugins (list collection)) (host response : str) (ports : list collection), "
+     "lookup_plugin (B \"clear\") ps = Some (clear_hosts_plugin dbg) -> all_scalar host = true -> all_scalar response = true -> "
+     "let res := handle ps (utf8_encode (client_message (B \"clear\") [(B \"response\" : str); host; response])) ports in "
+     "match uri_parts (utf8_encode response) with "
+     "| None => snd res = ports /\\ hr_close (fst res) = false /\\ starts_with (B \"error\") (hr_data (fst res)) = true "
+     "| Some (p, q) => let query := match q with Some q' => q' | None => [] end in "
+     "let found := existsb (fun c => fst (fst (clear_page_coll host p query c))) ports in "
+     "let cleared := existsb (fun c => snd (fst (clear_page_coll host p query c))) ports in "
+     "snd res = map (fun c => snd (clear_page_coll host p query c)) ports /\\ hr_close (fst res) = false /\\ "
+     "starts_with (B \"ok\") (hr_data (fst res)) = found && cleared /\\ "
+     "starts_with (B \"error\") (hr_data (fst res)) = negb (found && cleared) end"),
+    ("clear_response_removes_exactly",
+     "forall (host : str) (p q : bytes) (c : collection) (name : str) (k : rkey), "
+     "page_cached (snd (clear_page_coll host p q c)) name k = page_cached c name k && "
+     "negb (match page_target c host with Some n => beq n name && (rkey_eqb (RPathQuery p q) k || rkey_eqb (RPath p) k) | None => false end)"),
+    ("named_host_is_the_typed_one",
+     "forall (c : collection) (host n : str), is_empty host || beq host (B \"default\") = false -> "
+     "(file_target c host = Some n \\/ page_target c host = Some n) -> n = host"),
+    ("clear_without_ports",
+     "forall (dbg : str -> str) (args : list str), fst (clear_hosts_plugin dbg args []) = "
+     "fst (clear_plugin (fun r => match uri_parts (utf8_encode r) with Some _ => true | None => false end) args tt)"),
+    ("kvarnctl_ping_prints",
+     "forall (S : Type) (ps : plugins S) (args : list str) (s : S), lookup_plugin (B \"ping\") ps = Some ping_plugin -> "
+     "forallb all_scalar args = true -> "
+     "client_outcome (Data (hr_data (fst (handle ps (utf8_encode (client_message (B \"ping\") args)) s)))) = "
+     "(0, utf8_encode (join_sp args) ++ [c_newline])"),
+    ("kvarnctl_exit_status",
+     "forall (S : Type) (ps : plugins S) (req : bytes) (s : S), let d := hr_data (fst (handle ps req s)) in "
+     "(utf8_decode d = None -> client_outcome (Data d) = (6, [])) /\\ (utf8_decode d <> None -> "
+     "(classify S ps req s = CPluginOk -> fst (client_outcome (Data d)) = 0) /\\ "
+     "(classify S ps req s <> CPluginOk -> client_outcome (Data d) = (1, [])))"),
+    ("socket_survives_unlink",
+     LTS + "(st : lts_state S), l_listener st = Listening -> let st1 := lstep ps blocked env_step ack st EUnlink in "
+     "l_listener st1 = Unlinked /\\ l_env st1 = l_env st /\\ l_conns st1 = l_conns st /\\ "
+     "lstep ps blocked env_step ack st1 ERelisten = st"),
+    ("unlinked_refuses_then_accepts_again",
+     LTS + "(st : lts_state S) (k : N), l_listener st = Unlinked -> conn_get k (l_conns st) = None -> "
+     "conn_get k (l_conns (lstep ps blocked env_step ack st (EConnect k))) = Some PRefused /\\ "
+     "l_listener (lstep ps blocked env_step ack st ERelisten) = Listening /\\ "
+     "l_env (lstep ps blocked env_step ack st ERelisten) = l_env st /\\ "
+     "l_conns (lstep ps blocked env_step ack st ERelisten) = l_conns st"),
+    ("closed_listener_is_final",
+     LTS + "(evs : list event) (st : lts_state S), l_listener st = Closed -> l_listener (lrun ps blocked env_step ack st evs) = Closed"),
+    ("accept_error_is_harmless",
+     LTS + "(st : lts_state S), lstep ps blocked env_step ack st EAcceptErr = st"),
+    ("accept_error_ended_the_socket_refuted",
+     "exists (st : lts_state fx_state), l_listener st = Listening /\\ l_conns st = [] /\\ forall evs, "
+     "l_listener (lrun_v0 fx_plugins_chk fx_blocked fx_env_step fx_ack "
+     "(lstep_v0 fx_plugins_chk fx_blocked fx_env_step fx_ack st EAcceptErr) evs) = Closed"),
+    ("post_send_runs_without_client",
+     LTS + "(st : lts_state S) (k : N) (req : bytes) (hr : handler_response) (s' : S), "
+     "conn_get k (l_conns st) = Some (PGone req false) -> blocked req (l_env st) = false -> "
+     "handle_chk ps req (l_env st) = Ok (hr, s') -> let st1 := lstep ps blocked env_step ack st (EHandle k) in "
+     "l_env st1 = (if response_ack ps req (l_env st) then ack s' else s') /\\ "
+     "l_listener st1 = (if hr_close hr then Closed else l_listener st) /\\ "
+     "conn_get k (l_conns st1) = Some (PGone req true) /\\ "
+     "l_env st1 = l_env (run_task ps blocked ack true st k req true) /\\ "
+     "l_listener st1 = l_listener (run_task ps blocked ack true st k req true)"),
+    ("shutdown_without_client_finishes",
+     "forall (st : lts_state fx_state) (k : N), conn_get k (l_conns st) = Some (PGone (B \"shutdown\") false) -> "
+     "fx_acks (l_env st) = 0 -> fx_finished (l_env (fx_lstep st (EHandle k))) = true /\\ l_listener (fx_lstep st (EHandle k)) = Closed"),
+    ("wait_after_shutdown_refuted",
+     "let evs := [EConnect 1; EConnect 2; ESend 2 (B \"shutdown\"); EFin 2; EHandle 2; ESend 1 (B \"wait\"); EFin 1; EHandle 1] in "
+     "conn_get 1 (l_conns (lrun fx_plugins_chk_v0 fx_blocked fx_env_step fx_ack (lts_init fx_init) evs)) = Some (PReplied []) /\\ "
+     "conn_get 1 (l_conns (lrun fx_plugins_chk fx_blocked fx_env_step fx_ack (lts_init fx_init) evs)) = Some (PReplied (B \"ok\")) /\\ "
+     "~ plugins_total fx_plugins_chk_v0"),
+    ("post_send_skipped_refuted",
+     "exists evs, let st := lrun_v0 fx_plugins_chk fx_blocked fx_env_step fx_ack (lts_init fx_init) evs in "
+     "fx_shutdown (l_env st) = true /\\ forall evs', "
+     "fx_finished (l_env (lrun_v0 fx_plugins_chk fx_blocked fx_env_step fx_ack st evs')) = false"),
 ]
 RULE = ("(a) direct calls of kvarn_utils::encode_quoted_str / quoted_str_split / join against the Coq model (correspondence) and, for the "
         "round trip, against the specification 'the list itself' (oracle): ALL argument vectors over the alphabet {a, SP, \", ', \\} with one "
@@ -119,14 +214,38 @@ RULE = ("(a) direct calls of kvarn_utils::encode_quoted_str / quoted_str_split /
         "0.1-1 ms is typical), a non-empty reply beginning with ok or error (requests that are meant to wait excepted); not UTF-8 / "
         "unknown command => error; ping and the echo plugins return exactly the arguments sent on that connection; the counter plugin "
         "counts every request once; a connection is refused only after a closing request or the shutdown; the final ping is answered. "
+        "(e) the REAL kvarnctl binary (ctl/src/main.rs, built from the repo under test into harness/target-ctl on every run): `kvarnctl -s <socket> -- "
+        "<command> <args...>` as a process against a running instance, ALL argument vectors with one argument up to length 2 and two arguments up to "
+        "length 1 over {a, SP, \", ', \\}, seeded Unicode vectors, unknown commands, plugin errors, binary / empty replies, closing commands and a dead "
+        "socket; exit status and stdout against the model (client_outcome), against the specification 'ping prints its arguments joined by one space' "
+        "and a model-free oracle. (f) `clear` against an instance that serves a port with 1-5 hosts of arbitrary names (spaces, quotes, backslashes, "
+        "Unicode, a host literally called default), each with a file cache (arbitrary keys) and a response cache filled through the real request "
+        "pipeline (kvarn::handle_cache, a handler that counts its calls, pages cached with and without their query): clear file / response / all / "
+        "files / responses with the exact, mutated, swapped, empty and default host and key, valid and invalid targets; after EVERY request the caches "
+        "are read back and compared with the model (Collection::clear_file / clear_page / clear_*_caches and http's path-and-query scanner) AND with "
+        "a specification computed from the fixture and the typed arguments alone (exactly the typed entry of the typed host is gone, the reply is ok "
+        "iff it was cached); finally every page is requested again and the handlers' call counts are compared. http's scanner alone (ctl.uri): all "
+        "strings up to length 4 (thorough: 5) over {/, a, ?, #, SP, \", %, <, {, *, DEL, e-acute} + random. "
+        "(g) listener life cycle: the socket file is removed while connections are pending (re-listen observed through /proc/net/unix, then ping; "
+        "repeated; after a closing request nothing is re-bound); every free file descriptor of the process is taken while a client connects "
+        "(accept() fails with EMFILE), then released: that connection and the next ones are answered; clients that close the connection after "
+        "sending `shutdown` / a closing command / `reload wait` (Manager::wait must still resolve: step 'finished'); requests on connections "
+        "accepted before a shutdown and completed after it; clients that wait 1.2 s and 6.5 s (thorough: also 11 s) before, in the middle of and after "
+        "their request; 300 (thorough: 1000) connections pending at once. (h) kvarn's OWN reload plugin (component ctl.reload, in a child process "
+        "whose arg0 is a script that counts how often it is started): reload, reload <junk>, reload wait (pending until the shutdown), counts. "
+        "Replies are compared with the model by CLASS where the property does not fix the text (status word, close, echoed payload; kvarn's "
+        "message wording is not compared), exactly for ping / the echo plugins / counters. "
         "distinct_nontrivial counts distinct (component, input, model outcome) triples whose input contains a space, a quote, a backslash or "
         "an empty string (direct part), every session, and every UTF-8 case with a byte >= 0x80")
 ASSUMPTIONS = [
     "strings are lists of code points; the theorems hold for all lists of naturals, a superset of Rust strings; UTF-8 statements assume "
     "Unicode scalar values (what a Rust char is)",
     "one request = everything the client wrote before shutting down its write side, one reply = everything the server wrote before dropping "
-    "the connection (kvarn_signal's read_to_end framing, non-uring build); partial writes, the 100 ms re-listen after the socket file is "
-    "deleted, and the close sent by a shutdown initiated elsewhere are not modelled",
+    "the connection (kvarn_signal's read_to_end framing, non-uring build); partial writes are not modelled. The socket file's removal is two "
+    "events (EUnlink: nobody can connect; ERelisten: the accept loop has bound the path again); the 100 ms + 100 ms that pass in between are "
+    "not modelled (the harness waits until /proc/net/unix shows the new listener), nor is the instant between bind() and the registration "
+    "of the inotify watch, in which a removal would go unnoticed (the harness waits until /proc/self/fdinfo shows the watch), nor "
+    "connections that sit in the old listener's backlog when it is dropped",
     "concurrency is modelled as interleaving: the listener is a transition system whose events (connect, send, half-close, handler step, "
     "environment) each concern one connection; a handler step is atomic (plugins are functions (arguments, state) -> (response, state), a "
     "plugin that awaits something is 'blocked' until the state allows it); socket_never_wedged / accept_never_blocked quantify over all "
@@ -135,22 +254,38 @@ ASSUMPTIONS = [
     "state-dependent request (t-count, closing commands) in flight, so that every schedule gives the same replies",
     "promptness is a bounded wait in the run (6 s per reply, KV_C19_WAIT_MS), not a theorem: the theorems say the reply step is enabled "
     "and independent of the other connections; that tokio runs a spawned task is trusted",
-    "post_send callbacks are not modelled. reload is replaced by a harmless plugin in the harness (it would re-execute the harness "
-    "binary); wait is replaced in the sequential sessions and is kvarn's own in the concurrent ones. A plugin that panics is outside the "
-    "property (reply_total assumes plugins_total; the built-in ping is proved total, the others are total by construction)",
-    "clear is modelled for an instance without ports (no host collection is consulted); http's Uri parser is a parameter uri_ok, "
-    "instantiated in the run by 'starts with / and consists of [a-z0-9/._-]' and only such paths are generated",
+    "post_send is modelled as what the built-in plugins use it for: acknowledging the pre-shutdown phase (pr_ack; shutdown without no-wait, "
+    "reload wait); the shutdown manager is reduced to 'Manager::wait resolves when a shutdown was initiated and no acknowledgement is due' "
+    "(instances without ports / without open HTTP connections). reload is kvarn's own only in ctl.reload (child process with a harmless arg0), "
+    "elsewhere it is replaced; wait is replaced in the sequential sessions and is kvarn's own in the concurrent ones. A user plugin that panics "
+    "is outside the property (reply_total assumes plugins_total: proved for the fixture's table incl. ping; the built-in wait was NOT total before "
+    "its repair: wait_after_shutdown_refuted)",
+    "clear: the sequential sessions run on an instance without ports (clear_plugin, uri_ok = the generator's [a-z0-9/._-] paths); ctl.hosts runs "
+    "on an instance with one port (clear_hosts_plugin over a list of host collections; clear_without_ports ties the two). Host names are the "
+    "keys of a map: the run uses distinct names and no alternative names; Host::name lookups are exact string comparisons. Debug formatting "
+    "({:?}) of the success message `cleared <path> from <host>` is a parameter dbg of the model (debug_str in the run: right for printable "
+    "characters; for other strings only status word and cache effect are compared)",
     "Debug formatting ({arg:?}) in shutdown's error message is modelled for strings without control / non-printable characters; the "
     "generator uses printable ASCII there",
-    "kvarnctl's message construction lives in a binary crate's main(); the harness repeats its fold statement for statement (quoted.client) "
-    "and the thorough tier runs the real kvarnctl binary against the socket",
+    "kvarnctl: the real binary is run in BOTH tiers (component ctl.binary) with `--` before the command (so that any string is a positional "
+    "argument) and without flags; its clap front end, -q / -i / --wait / -c and the exit statuses 2 (I/O error) and 4 are not exercised by "
+    "theorems (client_outcome models the reply reading; 4 and 5 are in the model, reached by no plugin of the fixture). quoted.client still "
+    "repeats the fold of main() statement for statement for the exhaustive sweep. Arguments containing NUL cannot be passed to a process",
+    "a bounded wait that ran out is re-checked once: the whole script is run again on a fresh instance with three times the wait, and that "
+    "second run is what is compared; an instance that cannot be started is retried twice and then reported as not executed ((L (N 93)), named "
+    "in coverage.not_executed_cases; more than 3 such cases make the run a harness error)",
     "after a closing response the harness waits until the kernel no longer lists the listening socket (/proc/net/unix) before it sends the "
     "next request: the short window in which the accept loop has not yet seen the close message is outside the property",
 ]
 TRUSTED = ["modelled: utils/src/lib.rs encode_quoted_str, QuotedStrSplitIter::next, join; src/ctl.rs listen (handler closure, reply framing, "
-           "with every slice / String::remove explicit as str_slice_chk / str_remove_chk / frame_chk), with_ping, with_shutdown, with_clear "
-           "(argument handling), with_wait (blocked until shutdown); signal/src/lib.rs start_at accept loop and per-connection task "
-           "(Listening/Closed, connection phases refused / open / complete / replied); ctl/src/main.rs message construction and reply reading",
+           "with every slice / String::remove explicit as str_slice_chk / str_remove_chk / frame_chk), with_ping, with_shutdown (incl. its "
+           "post_send), with_clear (argument handling AND its calls into the host collections), with_wait (blocked until shutdown), with_reload "
+           "(argument handling, re-execution counted, post_send); src/host.rs Collection::clear_file / clear_page / clear_file_caches / "
+           "clear_response_caches / get_host / get_default and src/comprash.rs UriKey as sets of keys per host; http-1.5.0 scan_path_and_query / "
+           "PathAndQuery::path / query / Uri::path / Builder::path_and_query (Model/CtlHosts.v uri_parts, run against the real one); "
+           "signal/src/lib.rs start_at accept loop and per-connection task (Listening / Unlinked / Closed, accept errors, connection phases "
+           "refused / open / complete / replied / gone, post_send after the write attempt); ctl/src/main.rs message construction, reply reading, "
+           "exit status and stdout (the real binary is run)",
            "byte-index slicing of a &str/String: every site in src/ctl.rs, signal/src/lib.rs and the quoting code of utils/src/lib.rs was "
            "inspected -- the only one is data.remove(0) in with_ping (modelled, proved safe); data[..prepend.len()] is on a Vec<u8>",
            "/proc/net/unix is used by the harness only to wait for the listener's start and stop"]
@@ -331,6 +466,7 @@ def sessions(rng, n):
 
 # ---- concurrent, pending and long requests (ctl.conc) ------------------------------------------------
 OP_OPEN, OP_WRITE, OP_FIN, OP_AWAIT, OP_SHUTDOWN, OP_RELEASE, OP_DROP, OP_REQ, OP_SEND, OP_PEEK = range(10)
+OP_UNLINK, OP_SLEEP, OP_EXHAUST, OP_RESTORE, OP_FINISHED = range(10, 15)
 
 
 def st(op, k=0, b=None):
@@ -379,7 +515,8 @@ def long_requests(rng, quick):
              (b"shutdown ", "arg"), (b"wait ", "arg")]
     for L in SMALL_BOUNDS + BIG_BOUNDS:
         big = L > 4097
-        chunk = 700 if big else None
+        # (quick: no single token above 300 bytes -- the model's splitter is quadratic in the token length; the request lengths are the same)
+        chunk = (200 if L > 300 else None) if quick else (700 if big else None)
         fs = forms if not big else ([forms[0], forms[2]] if quick and L > 9000 else forms[:5])
         for fi, (prefix, rel) in enumerate(fs):
             for (w, before) in STRADDLES:
@@ -391,7 +528,8 @@ def long_requests(rng, quick):
                 for chs in chars:
                     ch = chs.encode("utf-8")
                     tail = b'zz"' if prefix.endswith(b'"') else b"zz"
-                    r = place(prefix, L, before, ch, rel, chunk, tail)
+                    # (a character at offset L of ONE argument needs one long token: kept up to 1 KiB in the quick tier)
+                    r = place(prefix, L, before, ch, rel, None if quick and rel == "arg" and L <= 1100 else chunk, tail)
                     if r is not None:
                         out.append(("long-straddle", r))
                     # the request ends right after / in the middle of that character
@@ -558,9 +696,12 @@ def conc_sessions(rng, quick):
         closer = rng.choice(CLOSERS) if rng.random() < 0.2 else None
         out.append(conc(pending_script(rng, kinds, rng.randrange(1, 8), closer=closer, tcount=True),
                         "conc-pending-close" if closer else "conc-pending"))
+    out += listener_sessions(rng, quick)
     # many connections pending at once
-    for n in ((40, 150) if quick else (40, 150, 400)):
-        out.append(conc(pending_script(rng, [rng.choice(("idle", "half", "unread", "slow")) for _ in range(n)], 5), "conc-many-pending"))
+    for n in ((40, 150, 300) if quick else (40, 150, 400, 1000)):
+        # (from 300 on only connections that stay open without a complete request: each of them occupies a task of the server)
+        kinds = ("idle", "half", "unread", "slow") if n < 300 else ("idle", "half")
+        out.append(conc(pending_script(rng, [rng.choice(kinds) for _ in range(n)], 5), "conc-many-pending"))
     # hundreds of sequential exchanges and reconnects (connections opened and dropped without a request in between)
     for n in ((300,) if quick else (300, 1000, 2500)):
         steps = []
@@ -578,6 +719,242 @@ def conc_sessions(rng, quick):
                 steps.append(st(OP_REQ, i, b"ping n%d" % i))
         steps.append(st(OP_REQ, 90000, b"ping end"))
         out.append(conc(steps, "conc-sequential"))
+    return out
+
+
+def listener_sessions(rng, quick):
+    """the socket file disappears; the process runs out of descriptors; clients that go away or take their time; is the
+    shutdown finished"""
+    out = []
+    # unlink -> re-listen, twice, with pending connections across it; then a closing request: nobody listens, nothing is re-bound
+    out.append(conc([st(OP_REQ, 1, b"ping before"), st(OP_OPEN, 2), st(OP_WRITE, 2, b"ping pend"), st(OP_SEND, 3, b"t-slow held"), st(OP_UNLINK, 0),
+                     st(OP_REQ, 4, b"ping after-1"), st(OP_FIN, 2), st(OP_AWAIT, 2), st(OP_UNLINK, 0), st(OP_REQ, 5, b"t-count"), st(OP_REQ, 6, b"nope"),
+                     st(OP_RELEASE), st(OP_AWAIT, 3), st(OP_REQ, 7, b"ping after-2"), st(OP_REQ, 8, b"shutdown no-wait"), st(OP_UNLINK, 0),
+                     st(OP_REQ, 9, b"ping closed")], "conc-unlink"))
+    for _ in range(2 if quick else 40):
+        steps, k = [], 0
+        for _ in range(rng.randrange(1, 4)):
+            for _ in range(rng.randrange(0, 3)):
+                k += 1
+                steps.append(st(OP_REQ, k, other_request(rng, k)))
+            steps.append(st(OP_UNLINK, 0))
+        steps.append(st(OP_REQ, 9000, b"ping end"))
+        out.append(conc(steps, "conc-unlink"))
+    # accept() fails with EMFILE: the connection that was in the backlog and every later one are still served
+    out.append(conc([st(OP_REQ, 1, b"ping before"), st(OP_OPEN, 5), st(OP_WRITE, 5, b"ping idle"), st(OP_EXHAUST, 2), st(OP_RESTORE),
+                     st(OP_WRITE, 2, b"ping during"), st(OP_FIN, 2), st(OP_AWAIT, 2), st(OP_REQ, 3, b"ping after"), st(OP_FIN, 5), st(OP_AWAIT, 5),
+                     st(OP_REQ, 4, b"t-count")], "conc-emfile"))
+    # a client that goes away right after sending `shutdown` (kvarnctl interrupted): the instance still finishes
+    out.append(conc([st(OP_REQ, 1, b"ping a"), st(OP_OPEN, 2), st(OP_WRITE, 2, b"shutdown"), st(OP_DROP, 2), st(OP_FINISHED, 0),
+                     st(OP_REQ, 3, b"ping late")], "conc-gone-client"))
+    out.append(conc([st(OP_SEND, 1, b"wait"), st(OP_OPEN, 2), st(OP_WRITE, 2, b'"shutdown"'), st(OP_DROP, 2), st(OP_FINISHED, 0), st(OP_AWAIT, 1)],
+                    "conc-gone-client"))
+    # requests on connections that were accepted before the shutdown and are handled after it
+    out.append(conc([st(OP_OPEN, 1), st(OP_OPEN, 3), st(OP_OPEN, 4), st(OP_OPEN, 5), st(OP_REQ, 2, b"shutdown"), st(OP_FINISHED, 0), st(OP_WRITE, 1, b"wait"),
+                     st(OP_FIN, 1), st(OP_AWAIT, 1), st(OP_WRITE, 3, b"shutdown"), st(OP_FIN, 3), st(OP_AWAIT, 3), st(OP_WRITE, 4, b"ping late"),
+                     st(OP_FIN, 4), st(OP_AWAIT, 4), st(OP_WRITE, 5, b"wait x"), st(OP_FIN, 5), st(OP_AWAIT, 5), st(OP_REQ, 6, b"ping refused")],
+                    "conc-gone-client"))
+    out.append(conc([st(OP_REQ, 1, b"shutdown"), st(OP_FINISHED, 0)], "conc-gone-client"))
+    out.append(conc([st(OP_REQ, 1, b"shutdown no-wait"), st(OP_FINISHED, 0)], "conc-gone-client"))
+    out.append(conc([st(OP_OPEN, 1), st(OP_WRITE, 1, b"t-close"), st(OP_DROP, 1), st(OP_OPEN, 2), st(OP_WRITE, 2, b"t-count"), st(OP_DROP, 2),
+                     st(OP_SLEEP, 200), st(OP_REQ, 3, b"ping refused?")], "conc-gone-client"))
+    # slow clients: connected for a while before the request, a pause in the middle of it, a pause before reading
+    for ms in ((1200, 6500) if quick else (1200, 6500, 11000)):
+        out.append(conc([st(OP_OPEN, 1), st(OP_OPEN, 2), st(OP_WRITE, 2, b"ping sl"), st(OP_SEND, 3, b"ping unread"), st(OP_SLEEP, ms),
+                         st(OP_REQ, 4, b"ping meanwhile"), st(OP_WRITE, 1, b"ping slow one"), st(OP_FIN, 1), st(OP_AWAIT, 1),
+                         st(OP_WRITE, 2, b"ow two"), st(OP_FIN, 2), st(OP_AWAIT, 2), st(OP_AWAIT, 3)], "conc-slow-client"))
+    return out
+
+
+def reload_sessions(rng, quick):
+    """kvarn's own `reload` (in a child process whose arg0 is a script that only counts how often it is started)"""
+    out = [Case("ctl.reload", xlist([st(OP_REQ, 1, b"ping a"), st(OP_REQ, 2, b"reload x"), st(OP_REQ, 3, b"reload"), st(OP_REQ, 4, b"reload wait x"),
+                                     st(OP_REQ, 5, b'reload "wait "'), st(OP_SEND, 6, b"reload wait"), st(OP_PEEK, 6), st(OP_REQ, 7, b"ping while reload waits"),
+                                     st(OP_REQ, 8, b"shutdown"), st(OP_AWAIT, 6), st(OP_FINISHED, 0)]), None, {"kind": "reload"}),
+           Case("ctl.reload", xlist([st(OP_REQ, 1, b'"reload"'), st(OP_REQ, 2, b"reload"), st(OP_REQ, 3, b"Reload"), st(OP_REQ, 4, b"reload  "),
+                                     st(OP_OPEN, 5), st(OP_WRITE, 5, b"reload wait"), st(OP_DROP, 5), st(OP_REQ, 6, b"t-count"), st(OP_SHUTDOWN),
+                                     st(OP_FINISHED, 0)]), None, {"kind": "reload"})]
+    for _ in range(1 if quick else 20):
+        steps = []
+        for k in range(1, rng.randrange(2, 7)):
+            steps.append(st(OP_REQ, k, rng.choice((b"reload", b"reload x", b"reload wait y", b"ping r%d" % k, b"reload ''", b"t-count", b"reload\xff"))))
+        steps += [st(OP_SEND, 50, b"reload wait"), st(OP_REQ, 51, b"ping p"), st(OP_SHUTDOWN), st(OP_AWAIT, 50), st(OP_FINISHED, 0)]
+        out.append(Case("ctl.reload", xlist(steps), None, {"kind": "reload"}))
+    return out
+
+
+# ---- the real kvarnctl binary (ctl.binary) ----------------------------------------------------------------------------
+def build_kvarnctl():
+    """cargo build of ctl/ (the operator's binary) from the repo under test into harness/target-ctl; a failed build removes
+    the binary, which the harness reports as (L (N 92)) and the oracle as a broken correspondence"""
+    tdir = os.path.join(kv.HARNESS, "target-ctl")
+    binp = os.path.join(tdir, "debug", "kvarnctl")
+    p = kv.sh(["cargo", "build", "--offline", "--quiet", "-p", "kvarnctl", "--target-dir", tdir], cwd=kv.REPO, timeout=3000, check=False)
+    if p.returncode != 0 and os.path.exists(binp):
+        os.remove(binp)
+    return p.returncode == 0
+
+
+def no_nul(v):
+    return [tuple(c for c in a if c) for a in v]
+
+
+def binary(calls, kind, ping_only=False):
+    x = xlist([xl(xs(c), xss(a)) for c, a in calls])
+    return Case("ctl.binary", x, "ctl.binary.pingspec" if ping_only else None, {"kind": kind})
+
+
+def binary_cases(rng, quick):
+    out = []
+    ping = S("ping")
+    vecs = [[w] for w in words(2)] + [[a, b] for a in words(1) for b in words(1)] + [[(), (A,), ()], [(SP,), (DQ, DQ), (BS, BS), (SQ, SQ)]]
+    vecs += [no_nul(rand_vec(rng)) for _ in range(60 if quick else 3000)]
+    for i in range(0, len(vecs), 12):
+        out.append(binary([(ping, v) for v in vecs[i:i + 12]], "kvarnctl-ping", ping_only=True))
+    # everything else an operator can meet: unknown commands, plugin errors, binary replies, no data, closing commands, a dead socket
+    out.append(binary([(S("nope"), []), (S("nope"), [S("x y")]), (S("t-fail"), [S("a b"), ()]), (S("t-fail-empty"), []), (S("t-ok-empty"), []),
+                       (S("t-bin"), []), (S("t-args"), [(), S('q"'), S("\\")]), (S(""), [S("x")]), (S("t-count"), []), (S("t-count"), []),
+                       (S("clear"), [S("all"), S("my host")]), (S("clear"), [S("file"), S("h"), S("/a b")]), (S("clear"), []),
+                       (S("shutdown"), [S("now")]), (S("PING"), []), (S("ping x"), []), (S('pi"ng'), [S("x")]), (S("wait"), [S("x")]),
+                       (S("reload"), []), (S("t-close"), [S("bye now")]), (ping, [S("late")]), (S("nope"), [])], "kvarnctl-mixed"))
+    out.append(binary([(S("t-count"), []), (S("shutdown"), []), (ping, [])], "kvarnctl-mixed"))
+    for _ in range(2 if quick else 80):
+        calls = []
+        for _ in range(rng.randrange(2, 9)):
+            r = rng.random()
+            if r < 0.4:
+                calls.append((S(rng.choice(("ping", "t-args", "t-fail", ""))), no_nul(rand_vec(rng, 3))))
+            elif r < 0.6:
+                calls.append((tuple(c for c in (rand_str(rng) or S("x")) if c), no_nul(rand_vec(rng, 2))))
+            elif r < 0.8:
+                calls.append((S("clear"), [S(rng.choice(("all", "files", "responses", "file", "response", "x")))] + no_nul(rand_vec(rng, 3))))
+            elif r < 0.9:
+                calls.append((S("shutdown"), no_nul([rand_str(rng, 5)])))
+            else:
+                calls.append((S(rng.choice(("t-close", "t-bin", "t-count", "t-ok-empty"))), []))
+        calls.append((ping, [S("end")]))
+        out.append(binary(calls, "kvarnctl-mixed"))
+    return out
+
+
+# ---- `clear` against hosts with caches (ctl.hosts) ------------------------------------------------------------------------
+PATH_OK = [c for c in range(0x21, 0x7f) if c in (0x21, 0x22, 0x7b, 0x7c, 0x7d, 0x7e) or 0x24 <= c <= 0x3b or c == 0x3d or 0x40 <= c <= 0x5f or 0x61 <= c <= 0x7a]
+QUERY_OK = [c for c in range(0x21, 0x7f) if c == 0x21 or 0x24 <= c <= 0x3b or c == 0x3d or 0x3f <= c <= 0x7e]
+HIGH = [0xe9, 0x20ac, 0x65e5, 0x1f980]
+
+
+def rand_path(rng, qm):
+    body = tuple(rng.choice(PATH_OK + HIGH + [A, A, 0x2f, 0x2e, 0x25]) for _ in range(rng.randrange(0, 7)))
+    p = list((S("/q") if qm else (0x2f,) + ((rng.choice([c for c in PATH_OK if c != 0x71] + HIGH),) if body or rng.random() < 0.8 else ())) + body)
+    # no empty and no dot segments: kvarn does not serve (and so does not cache) such targets as they are
+    for i in range(1, len(p)):
+        if (p[i - 1] == 0x2f and p[i] in (0x2f, 0x2e)) or (p[i - 1] == 0x2e and p[i] == 0x2f):
+            p[i] = A
+    return tuple(p)
+
+
+def rand_query(rng):
+    return tuple(rng.choice(QUERY_OK + HIGH + [A, 0x3d, 0x26]) for _ in range(rng.randrange(0, 6)))
+
+
+def page_key(p, q):
+    return ("pq", p, q or ()) if p[:2] == S("/q") else ("p", p)
+
+
+def hosts_fixture(rng):
+    names = [S("main host"), S('q"uo\\te'), S("it's"), S("ünï 日本"), S(" lead"), S("trail "), S("default"), S("Main Host"), S("a  b"), S("x")]
+    rng.shuffle(names)
+    names = names[:rng.randrange(1, 5)] + [rand_str(rng) or S("h")] * (rng.random() < 0.5)
+    if rng.random() < 0.35:
+        names += [S("main host"), S("Main Host")]       # two hosts whose names differ in case only
+    names = list(dict.fromkeys(tuple(c for c in n if c) or S("h") for n in names))
+    default = rng.randrange(-1, len(names))
+    hosts = []
+    for i, n in enumerate(names):
+        files = list(dict.fromkeys([S("/a b"), S("public/index.html"), S('we"ird\\'), ()][:rng.randrange(0, 5)] + [rand_str(rng) for _ in range(rng.randrange(0, 3))]))
+        pages, seen = [], set()
+        for _ in range(rng.randrange(0, 5)):
+            qm = rng.random() < 0.4
+            p, q = rand_path(rng, qm), (rand_query(rng) if rng.random() < 0.5 else None)
+            if page_key(p, q) not in seen:
+                seen.add(page_key(p, q))
+                pages.append((p, q))
+        hosts.append((1 if i == default else 0, n, files, pages))
+    return hosts
+
+
+def mutate(rng, s):
+    s = list(s)
+    r = rng.random()
+    if r < 0.25 and s:
+        del s[rng.randrange(len(s))]
+    elif r < 0.5:
+        s.insert(rng.randrange(len(s) + 1), rng.choice((SP, DQ, SQ, BS, A)))
+    elif r < 0.75 and s:
+        i = rng.randrange(len(s))
+        s[i] = s[i] ^ 0x20 if 0x41 <= (s[i] & ~0x20) <= 0x5a else A
+    else:
+        s = s[::-1]
+    return tuple(s)
+
+
+def swapcase(s):
+    return tuple(c ^ 0x20 if 0x41 <= (c & ~0x20) <= 0x5a else c for c in s)
+
+
+def hosts_case(rng, nreq):
+    hosts = hosts_fixture(rng)
+    reqs, ops = [], []
+    names = [h[1] for h in hosts]
+    for _ in range(nreq):
+        h = rng.choice(hosts)
+        r = rng.random()
+        host = h[1] if r < 0.55 else rng.choice(((), S("default"), S("nobody"), mutate(rng, h[1]), swapcase(h[1]), rand_str(rng)))
+        kind = rng.random()
+        if kind < 0.4:
+            key = rng.choice(h[2]) if h[2] and rng.random() < 0.7 else rng.choice((S("/a b"), rand_str(rng), mutate(rng, rng.choice(h[2])) if h[2] else ()))
+            args = [S("file"), host, key] + ([rand_str(rng)] if rng.random() < 0.1 else [])
+            op = ("file", host, key, len(args) > 3)
+        elif kind < 0.8:
+            if h[3] and rng.random() < 0.7:
+                p, q = rng.choice(h[3])
+                if rng.random() < 0.3:
+                    q = rand_query(rng) if rng.random() < 0.5 else None
+                resp = p + ((0x3f,) + q if q is not None else ()) + ((0x23, A) if rng.random() < 0.1 else ())
+            else:
+                resp = rng.choice((S("/a b"), S("/nope"), rand_str(rng), rand_path(rng, False), (), S("*"), S("?x"), S("#f")))
+            args = [S("response"), host, resp] + ([rand_str(rng)] if rng.random() < 0.1 else [])
+            op = ("response", host, resp, len(args) > 3)
+        elif kind < 0.93:
+            m = rng.choice(("all", "files", "responses"))
+            args = [S(m)] + ([rng.choice(names + names + [(), S("default"), S("nobody"), mutate(rng, rng.choice(names)), swapcase(rng.choice(names))])]
+                             if rng.random() < 0.7 else []) + ([S("x")] if rng.random() < 0.1 else [])
+            op = (m, args[1] if len(args) > 1 else None, None, False)
+        else:
+            args = rng.choice(([S("file")], [S("response"), host], [], [S("nonsense"), host], [S("file"), h[2][0] if h[2] else (), host]))
+            op = None
+        if all(all(c for c in a) for a in args):
+            reqs.append(client_line(S("clear"), args))
+            ops.append(op)
+    reqs.append(b"ping end")
+    ops.append(None)
+    x = xl(xlist([xl(xn(d), xs(n), xss(f), xlist([xl(xs(p), xlist([] if q is None else [xs(q)])) for p, q in pg])) for d, n, f, pg in hosts]),
+           xlist([xb(r) for r in reqs]))
+    return Case("ctl.hosts", x, None, {"kind": "clear-hosts", "hosts": hosts, "ops": ops})
+
+
+def hosts_cases(rng, quick):
+    return [hosts_case(rng, rng.randrange(3, 14)) for _ in range(25 if quick else 1500)]
+
+
+def uri_cases(rng, quick):
+    out = []
+    alpha = (0x2f, A, 0x3f, 0x23, SP, DQ, 0x25, 0x3c, 0x7b, 0x2a, 0x7f, 0xe9)
+    for w in words(4 if quick else 5, alpha):
+        out.append(Case("ctl.uri", xb(u8(w)), None, {"kind": "uri-exhaustive"}))
+    for _ in range(300 if quick else 20000):
+        out.append(Case("ctl.uri", xb(u8(tuple(rng.choice((0x2f, 0x2f, 0x3f, 0x23, rng.randrange(0x20, 0x80), rng.choice(HIGH), A)) for _ in range(rng.randrange(0, 9))))),
+                        None, {"kind": "uri-random"}))
     return out
 
 
@@ -673,8 +1050,24 @@ def conc_oracle(steps, outputs):
             closing = shutdown = True
         if op == OP_RELEASE:
             gate = True
-        if op in (OP_OPEN, OP_SEND):
+        if op == OP_EXHAUST:
+            reqs[k] = b""
+            if closing:
+                late.add(k)
+        if op in (OP_OPEN, OP_SEND, OP_EXHAUST):
             inflight.append(k)
+        if op in (OP_UNLINK, OP_FINISHED):
+            if oi >= len(outputs):
+                return "the harness produced %d outputs, the script has more reading steps" % len(outputs)
+            o = outputs[oi]
+            oi += 1
+            code = o[1][1][1][0][1] if o[0] == "L" and len(o[1]) == 2 and o[1][1][0] == "L" and o[1][1][1] else None
+            if op == OP_UNLINK and code == 7 and not closing:
+                return ("after the socket file was removed nobody listens at the path any more (within 10 s) although no request that closes the "
+                        "socket had been sent: the socket does not answer the next request")
+            if op == OP_FINISHED and code == 9 and (shutdown or any(b"shutdown" in r for r in reqs.values())):
+                return ("the instance was told to shut down but Manager::wait did not resolve within the bounded wait (requests so far: %s)"
+                        % ", ".join(show(r) for r in list(reqs.values())[-4:]))
         if op in (OP_AWAIT, OP_REQ, OP_PEEK):
             if oi >= len(outputs):
                 return "the harness produced %d outputs, the script has more reading steps" % len(outputs)
@@ -712,7 +1105,175 @@ def conc_oracle(steps, outputs):
     return None
 
 
+def plain(s):
+    """strings whose Debug form ({:?}) is: quotes, with \" and \\ escaped (printable ASCII and a few letters)"""
+    return all(0x20 <= c < 0x7f or c in (0xe9, 0xfc, 0xef, 0x20ac, 0x65e5, 0x672c) for c in s)
+
+
+def hosts_oracle(c, out):
+    """from the fixture and the typed arguments alone: exactly the typed entry of the typed host leaves the caches"""
+    hosts, ops = c.meta.get("hosts"), c.meta.get("ops")
+    if hosts is None:
+        return None
+    default = next((h[1] for h in hosts if h[0]), None)
+    state = [([True] * len(h[2]), [True] * len(h[3])) for h in hosts]
+    if len(out) != len(ops) + 1:
+        return "%d outputs for %d requests" % (len(out), len(ops))
+    for n, (op, o) in enumerate(zip(ops, out)):
+        if o[0] != "L" or len(o[1]) != 2:
+            return "request %d: malformed output" % n
+        reply, snap = o[1]
+        if reply[0] != "L" or reply[1][:1] != [("N", 0)]:
+            return "request %d: no reply (%s)" % (n, xtext(reply)[:40])
+        data = reply[1][1][1]
+        if not (data.startswith(b"ok") or data.startswith(b"error")):
+            return "request %d: the reply %r begins with neither `ok` nor `error`" % (n, data[:60])
+        before = [(list(f), list(p)) for f, p in state]
+        if op is not None:
+            kind, host, key, extra = op
+            removed = False
+            if kind in ("file", "response"):
+                target = default if host in ((), S("default")) else (host if any(h[1] == host for h in hosts) else None)
+                pq = None
+                if kind == "response":
+                    pq = uri_split(u8(key))
+                for hi, h in enumerate(hosts):
+                    if target is None or h[1] != target:
+                        continue
+                    if kind == "file":
+                        for ki, k in enumerate(h[2]):
+                            if k == key and state[hi][0][ki]:
+                                state[hi][0][ki] = False
+                                removed = True
+                    elif pq is not None:
+                        for ki, (p, q) in enumerate(h[3]):
+                            pk = page_key(p, q)
+                            hit = (pk[0] == "p" and u8(pk[1]) == pq[0]) or (pk[0] == "pq" and u8(pk[1]) == pq[0] and u8(pk[2]) == (pq[1] or b""))
+                            if hit and state[hi][1][ki]:
+                                state[hi][1][ki] = False
+                                removed = True
+                # (an extra argument turns the reply into an error AFTER the entry was removed: no status check then)
+                if not extra and data.startswith(b"ok") != removed:
+                    return ("request %d, clear %s %s %s: the reply is %r but the typed entry %s in the cache of the typed host"
+                            % (n, kind, show_s(host), show_s(key), data[:60], "was" if removed else "was not"))
+            else:
+                for hi, h in enumerate(hosts):
+                    if host is None or h[1] == host:
+                        if kind in ("all", "files"):
+                            state[hi] = ([False] * len(h[2]), state[hi][1])
+                        if kind in ("all", "responses"):
+                            state[hi] = (state[hi][0], [False] * len(h[3]))
+        want = ("L", [("L", [("L", [("N", int(b)) for b in f]), ("L", [("N", int(b)) for b in p])]) for f, p in state])
+        if snap != want:
+            what = "clear %s %s %s" % (op[0], show_s(op[1]) if op[1] is not None else "-", show_s(op[2]) if op[2] is not None else "-") if op else "the request"
+            return ("request %d (%s): the caches afterwards are %s, expected %s (hosts: %s) -- exactly the typed entry of the typed host must go"
+                    % (n, what, kv.pretty(snap, 60), kv.pretty(want, 60), ", ".join(show_s(h[1]) for h in hosts)))
+    calls = out[-1]
+    want = ("L", [("N", sum(1 for b in p if not b)) for _, p in state])
+    if calls != want:
+        return "re-fetching every page called the handlers %s times, expected %s (a page that was cleared is produced again, a cached one is not)" % (kv.pretty(calls), kv.pretty(want))
+    return None
+
+
+def show_s(s):
+    return repr("".join(chr(c) for c in s))
+
+
+def uri_split(b):
+    """http's path-and-query scanner, from its documentation: (path, query) or None"""
+    if b == b"":
+        return (b"", None)
+    if len(b) > 65534:
+        return None
+    if b == b"*":
+        return (b"*", None)
+    if b[:1] not in (b"/", b"?", b"#"):
+        return None
+    b = b.split(b"#", 1)[0]
+    path, sep, query = b.partition(b"?")
+    ok_p = set(PATH_OK) | set(range(0x80, 0x100))
+    ok_q = set(QUERY_OK) | set(range(0x80, 0x100))
+    if any(c not in ok_p for c in path) or any(c not in ok_q for c in query):
+        return None
+    if b == b"":
+        return (b"", None)
+    return (path or b"/", query if sep else None)
+
+
+def binary_oracle(c, out):
+    calls = c.x[1]
+    if len(out) != len(calls):
+        return "%d outputs for %d invocations of kvarnctl" % (len(out), len(calls))
+    closed = False
+    for n, (call, o) in enumerate(zip(calls, out)):
+        cmd = bytes(u8([v[1] for v in call[1][0][1]]))
+        args = [u8([v[1] for v in a[1]]) for a in call[1][1][1]]
+        if o[0] != "L" or len(o[1]) != 2 or o[1][0][0] != "N" or o[1][1][0] != "B":
+            return "invocation %d (kvarnctl %r %r): the process could not be run: %s" % (n, cmd, args, xtext(o)[:60])
+        code, stdout = o[1][0][1], o[1][1][1]
+        what = "invocation %d, kvarnctl -- %r %s" % (n, cmd.decode("utf-8", "replace"), " ".join(repr(a.decode("utf-8", "replace")) for a in args))
+        if closed and code == 3:
+            continue
+        if code == 3:
+            return what + ": exit status 3 (no instance at the socket) although no command that closes the socket had been sent"
+        if cmd == b"ping":
+            want = b" ".join(args) + b"\n"
+            if code != 0 or stdout != want:
+                return what + ": exit status %d, printed %r; expected 0 and %r (ping prints its arguments)" % (code, stdout[:200], want[:200])
+        elif args and cmd in (b"t-args", b"") and code == 0:
+            pass
+        elif RE_FIRST_WORD.match(cmd) and RE_FIRST_WORD.match(cmd).group(1) not in KNOWN_COMMANDS and (args or RE_PLAIN_WORD.match(cmd)):
+            if code != 1 or stdout:
+                return what + ": exit status %d, printed %r; an unknown command is an error (exit status 1, nothing on stdout)" % (code, stdout[:80])
+        if code not in (0, 1, 6):
+            return what + ": exit status %d (the reply's first word is neither `ok` nor `error`, or there is no reply)" % code
+        closed = closed or may_close(cmd)
+    return None
+
+
+RE_PLAIN_WORD = re.compile(rb"^[^ \"'\\]+$")
+HARNESS_TROUBLE = {}
+
+
+def out_of_domain(c, i):
+    """(L (N 96)): not expressible; (L (N 93)): the harness could not start an instance for this case (after three
+    attempts) -- not executed, named in the evidence; more than a few of them is a harness error (extra_oracle)"""
+    if i.startswith("(L (N 96)"):
+        return True
+    if i.startswith("(L (N 93)"):
+        HARNESS_TROUBLE[c.id] = c.meta.get("kind", "-")
+        return len(HARNESS_TROUBLE) <= 3
+    return False
+
+
+def extra_coverage(cases, impl, model, spec):
+    missing = [c.id for c in cases if c.id not in impl or c.id not in model]
+    return {"not_executed_cases": {"no_instance_could_be_started": dict(HARNESS_TROUBLE), "no_output": missing[:50]},
+            "kvarnctl_binary": os.path.join(kv.HARNESS, "target-ctl", "debug", "kvarnctl"),
+            "kvarnctl_binary_invocations": sum(len(c.x[1]) for c in cases if c.comp == "ctl.binary" and c.id in impl)}
+
+
 def extra_oracle(c, i):
+    if i.startswith("(L (N 93)"):
+        return ("harness error: no kvarn instance could be started for %d cases (%s): too many to call the run a check"
+                % (len(HARNESS_TROUBLE), ", ".join("%s:%s" % kv_ for kv_ in list(HARNESS_TROUBLE.items())[:8])))
+    if c.comp == "ctl.binary":
+        if i.startswith("(L (N 92)"):
+            return "the real kvarnctl binary (ctl/src/main.rs) does not build any more: the correspondence to the operator's side is broken"
+        out = xparse(i)
+        if out[0] != "L" or (out[1] and out[1][0][0] == "N"):
+            return "the harness could not run kvarnctl: " + i[:80]
+        return binary_oracle(c, out[1])
+    if c.comp == "ctl.hosts":
+        out = xparse(i)
+        if out[0] != "L" or (out[1] and out[1][0][0] == "N"):
+            return "the harness could not set up the hosts: " + i[:120]
+        return hosts_oracle(c, out[1])
+    if c.comp == "ctl.reload":
+        out = xparse(i)
+        if out[0] != "L" or (out[1] and out[1][0][0] == "N"):
+            return "the harness could not run the session: " + i[:80]
+        return conc_oracle(c.x[1], out[1][:-1])
     if c.comp == "ctl.conc":
         out = xparse(i)
         if out[0] != "L" or (out[1] and out[1][0][0] == "N"):
@@ -776,7 +1337,12 @@ def utf8_cases(rng, n):
 def generate(rng, tier):
     cases = []
     quick = tier == "quick"
+    build_kvarnctl()
     cases += sessions(rng, 12 if quick else 400)
+    cases += binary_cases(rng, quick)
+    cases += hosts_cases(rng, quick)
+    cases += reload_sessions(rng, quick)
+    cases += uri_cases(rng, quick)
     cases += conc_sessions(rng, quick)
     cases += long_sessions(rng, quick)
     cases += utf8_cases(rng, 1500 if quick else 60000)
@@ -852,9 +1418,92 @@ def spec_ok(c, i, s):
     return i == s
 
 
+# ---- the correspondence compares replies by CLASS where the property does not fix the text -------------------------
+# The property fixes: the status word, whether the socket is closed, what is echoed (ping / the t-* plugins / the host and
+# the argument that clear and shutdown report back).  It does not fix the wording of kvarn's messages.  So a reply that the
+# model predicts to be `<status> <message>` with one of kvarn's constant messages is equal to any reply with that status
+# word, and one with a message prefix followed by a payload (`unexpected argument: "x"`, `cleared the caches on <host>`) to
+# any reply with that status word that ends with the same payload.  Everything else (ping, t-*, counters) is compared exactly.
+CONST_MESSAGES = [b"Received binary content. Requests have to be UTF-8.", b"'Command not found.'", b"unexpected argument",
+                  b"'Successfully completed a graceful shutdown.'", b"you must specify what to clear", b"cleared all caches",
+                  b"cleared all file caches", b"cleared all response caches", b"please supply the host you want to clear the response from",
+                  b"please supply response you want to clear after the host", b"didn't find the target host. Use \\'default\\' for the default host",
+                  b"didn't find the target host. Use 'default' for the default host", b"failed to format target response", b"clear method invalid",
+                  b"target file isn\\'t in the cache", b"target response isn't in the cache", b"no arguments were expected",
+                  b"successfully reloaded Kvarn"]
+ECHO_PREFIXES = [b"unexpected argument: ", b"cleared the caches on ", b"cleared the file cache on ", b"cleared the response cache on "]
+RE_CLEARED = re.compile(rb"^ok cleared (.*) from (.*)$", re.S)
+
+
+def reply_equal(i, m):
+    """i, m: reply data (bytes) of the implementation and of the model"""
+    if i == m:
+        return True
+    for status in (b"ok", b"error"):
+        if m.startswith(status + b" "):
+            text = m[len(status) + 1:]
+            same_status = i == status or i.startswith(status + b" ")
+            if text in CONST_MESSAGES:
+                return same_status
+            for pre in ECHO_PREFIXES:
+                if text.startswith(pre):
+                    return same_status and i.endswith(text[len(pre):])
+            if RE_CLEARED.match(m):
+                # `cleared {path:?} from {host:?}`: the Debug form is modelled for printable strings only (compared above);
+                # otherwise the class
+                return same_status
+    return False
+
+
+def tree_equal(i, m):
+    if i == m:
+        return True
+    if i[0] != m[0]:
+        return False
+    if i[0] == "L":
+        a, b = i[1], m[1]
+        if len(a) == 2 and len(b) == 2 and a[0] == ("N", 0) and b[0] == ("N", 0) and a[1][0] == "B" and b[1][0] == "B":
+            return reply_equal(a[1][1], b[1][1])
+        return len(a) == len(b) and all(tree_equal(x, y) for x, y in zip(a, b))
+    return False
+
+
+ECHO_COMMANDS = (b"ping", b"t-args", b"t-fail", b"t-count", b"")
+
+
+def compare(c, i, m):
+    if i == m:
+        return True
+    if c.comp in ("ctl.session", "ctl.conc", "ctl.reload", "ctl.hosts"):
+        try:
+            return tree_equal(xparse(i), xparse(m))
+        except Exception:
+            return False
+    if c.comp == "ctl.binary":
+        # exit status always; stdout exactly for the echoing commands, else only whether anything was printed
+        try:
+            a, b = xparse(i), xparse(m)
+        except Exception:
+            return False
+        if a[0] != "L" or b[0] != "L" or len(a[1]) != len(b[1]) or len(a[1]) != len(c.x[1]):
+            return False
+        for call, x, y in zip(c.x[1], a[1], b[1]):
+            if x == y:
+                continue
+            cmd = bytes(u8([v[1] for v in call[1][0][1]]))
+            if x[0] != "L" or len(x[1]) != 2 or x[1][0] != y[1][0] or cmd in ECHO_COMMANDS:
+                return False
+            if bool(x[1][1][1]) != bool(y[1][1][1]):
+                return False
+        return True
+    return False
+
+
 def signature(c, m):
-    if c.comp == "ctl.session":
+    if c.comp in ("ctl.session", "ctl.binary", "ctl.hosts", "ctl.reload"):
         return m[:64]
+    if c.comp == "ctl.uri":
+        return m[:32]
     if c.comp == "ctl.utf8":
         return m[:24] if any(b >= 0x80 for b in c.x[1]) else None
     # non-trivial: the input contains a distinguished character or an empty string
@@ -889,14 +1538,30 @@ LEVEL_TEXT = ("Machine-checked Coq theorems over a code-point-level model of enc
               "every event sequence of the other connections and the environment, a connection whose request is complete keeps it and, as "
               "soon as its handler is not blocked, gets its reply by its own step, which changes no other connection; accept_never_blocked "
               "-- a new connection is accepted and read whatever the others do; clients_cannot_close; rejected requests get the same "
-              "error reply at whatever point of the interleaving they are handled. The model is tied to /repo on every run by a differential run of the "
+              "error reply at whatever point of the interleaving they are handled. Strengthening 2: plugin_sees_typed_arguments -- for EVERY plugin "
+              "table, plugin name, state and argument vector of Unicode scalar values, kvarnctl's message makes the handler call that plugin with "
+              "exactly those arguments; clear file / clear response on an instance with any ports and hosts: the state afterwards is "
+              "Collection::clear_file / clear_page applied with the host and path as typed (clear_*_sees_typed_target), which remove exactly the typed "
+              "key (the two keys of the typed path-and-query, parsed by a transcription of http's scanner) from the cache of the designated host "
+              "and nothing else, for every host name and key (clear_*_removes_exactly, named_host_is_the_typed_one), reply ok iff it was cached; "
+              "the portless model is the special case (clear_without_ports); the real kvarnctl's stdout and exit status (kvarnctl_ping_prints, "
+              "kvarnctl_exit_status: 0 exactly for a plugin's Ok, 1 for not-UTF-8 / unknown / plugin error, 6 for a binary reply); the socket file's "
+              "removal and the re-listen restore exactly the previous state (socket_survives_unlink, unlinked_refuses_then_accepts_again), a closed "
+              "listener stays closed (closed_listener_is_final), a failed accept() changes nothing (accept_error_is_harmless), the task of a "
+              "connection whose client has gone away has the same effects incl. post_send (post_send_runs_without_client, "
+              "shutdown_without_client_finishes). Three statements were FALSE of the code as found and are proved refuted on its faithful model, "
+              "reproduced on the real code and repaired (fixed: lines in known-findings.txt): accept_error_ended_the_socket_refuted, "
+              "post_send_skipped_refuted, wait_after_shutdown_refuted. The model is tied to /repo on every run by a differential run of the "
               "real functions (bounded-exhaustive over {a, SP, \", ', \\} + random Unicode) and of real unix-socket sessions against a running "
-              "kvarn instance, sequential and with several connections pending at once, long requests around every length constant, "
-              "plus model-independent oracles on every reply.")
+              "kvarn instance, sequential and with several connections pending at once, long requests around every length constant, the real "
+              "kvarnctl binary as a process, an instance with hosts and caches for clear, kvarn's own reload in a child process, socket-file removal, "
+              "descriptor exhaustion, vanished and slow clients, plus model-independent oracles on every reply and on the caches.")
 LEVEL_NOTE = ("Trusted: Coq kernel, extraction (ExtrOcamlBasic) reduced by an in-kernel recheck sample, the hand transcription of "
               "utils/src/lib.rs, src/ctl.rs, signal/src/lib.rs and ctl/src/main.rs into Model/Quoted.v and Model/Ctl.v as validated by the "
               "differential run; tokio / the kernel's unix sockets are outside the theorems (read_to_end framing and 'a spawned task runs' assumed; promptness is "
               "checked by the run with a 6 s bound, not proved). Single tokens longer than 16 KiB are only run split into tokens of 700 bytes "
               "(the model's splitter is quadratic in the token length); messages up to 64 KiB + are run. "
-              "The model describes the code after the repair of the empty-argument defect (fixed: line in known-findings.txt). No axioms.")
+              "The model describes the code after the repairs of the empty-argument defect, the accept-error defect, the skipped post_send and the "
+              "panicking wait (fixed: lines in known-findings.txt); the code before the last three is lstep_v0 / fx_plugins_chk_v0. Not modelled: "
+              "kvarnctl's flags, the uring build of kvarn_signal, the watcher's timing, partial writes. No axioms.")
 TECHNIQUE = "Coq proof (model satisfies the round-trip and dispatch specification for all inputs and histories) + differential correspondence model vs. implementation"
